@@ -394,6 +394,22 @@ def check_iterators(run, cx, cfg):
         run.fail('lift.wiring', fn, cfg, 'function not found')
 
 
+def check_take_len(run, cx, cfg):
+    """Take's size_hint / len report exactly the remaining count n"""
+    ni = cx.field_index('dasp_signal::Take', 'n')
+    n = ('field', ('deref', ('param', 1)), ni)
+    for fn, want in (('<dasp_signal::Take<S> as core::iter::traits::iterator::Iterator>::size_hint',
+                      ('agg', ('tuple',), (n, ('agg', ('adt', 'core::option::Option', 1, 'Some'), (n,))))),
+                     ('<dasp_signal::Take<S> as core::iter::traits::exact_size::ExactSizeIterator>::len', n)):
+        body = cx.body(fn)
+        if body is None:
+            run.fail('take.len', fn, cfg, 'function not found')
+            continue
+        ps = returning(cx.paths(fn))
+        ok = len(ps) == 1 and not call_events(ps[0]) and not heap_writes(ps[0]) and ps[0]['ret'] == want
+        run.check(ok, 'take.len', fn, cfg, 'must report exactly the remaining count n: [%s]' % '; '.join(describe_path(p) for p in ps), where=where(body))
+
+
 def run(run, tier, load):
     run.rule_text = 'one instance per (impl or function x rule x configuration); non-trivial = rule matched code of the tree'
     run.explanation = ('Decided for all paths: (1) every impl Signal that stores a Signal source overrides is_exhausted; (2) each override is the OR of its sources '
@@ -412,3 +428,9 @@ def run(run, tier, load):
         check_truth_tables(run, cx, cfg)
         check_lookahead(run, cx, cfg)
         check_iterators(run, cx, cfg)
+        check_take_len(run, cx, cfg)
+        # Signal impls: next belongs to C04 and the per-adaptor properties; here: nothing beyond next / is_exhausted is overridden,
+        # and the iterators of this property override nothing that no rule covers
+        check_overrides(run, cx, cfg, 'exhaustion.inventory', lambda p: p.startswith('dasp_signal::') or p == "&'a mut S", minimum=60)
+        ev = {fn for _, fn, _, _ in run.instances}
+        check_overrides(run, cx, cfg, 'exhaustion.iter-inventory', lambda p: p in ('dasp_signal::Take', 'dasp_signal::UntilExhausted', 'dasp_signal::IntoInterleavedSamplesIterator'), evaluated=ev, minimum=5)
